@@ -19,5 +19,7 @@ func runC01(c *fw.Ctx) {
 	r12(c)
 	r13(c)
 	checkLoops(c, "R1.5")
+	r16redecl(c)
+	restoreUnconditional(c, "R1.7")
 	r14(c)
 }
